@@ -88,6 +88,8 @@ func init() {
 				e1run("map-tomb-n3-d4", "map", 3, 4, "", o, nil, "tomb", 0),
 				e1run("list-tomb-n2-d4", "list", 2, 4, "mid", o, nil, "tomb", 0),
 				e1run("doc-tomb-n2-d3", "doc", 2, 3, "", o, nil, "tomb", 0),
+				e1run("counter-bound-n3-d4", "counter", 3, 4, "wrap", o, nil, "bound", 0),
+				e1run("counter-rich-n2-d5", "counter", 2, 5, "rich", o, nil, "", 0),
 				e1runSP("doc-live-n2-d2-tx", "doc", 2, 2, "tx", o, 1, 0, "live"), // failed transactions (rollback + replay) inside the history
 				e1runSP("list-live-n2-d2-tx", "list", 2, 2, "tx", o, 1, 0, "live"),
 			}
@@ -138,10 +140,13 @@ func init() {
 				e1run("map-skew-n3-d4", "map", 3, 4, "", o, nil, "skew", 0),
 				e1run("map-tomb-n3-d4", "map", 3, 4, "", o, nil, "tomb", 0),
 				e1run("list-tomb-n2-d4", "list", 2, 4, "mid", o, nil, "tomb", 0),
+				e1run("counter-bound-n3-d4", "counter", 3, 4, "wrap", o, nil, "bound", 0),
+				e1run("counter-rich-n2-d5", "counter", 2, 5, "rich", o, nil, "", 0),
 			}
 		} else {
 			p.BudgetS = 3300
 			p.Runs = []Run{
+				e1run("counter-bound-n3-d5", "counter", 3, 5, "wrap rich", o, nil, "bound", 0),
 				e1run("map-tomb-n3-d5", "map", 3, 5, "", o, nil, "tomb", 600000),
 				e1run("list-tomb-n3-d4", "list", 3, 4, "mid", o, nil, "tomb", 600000),
 				e1run("counter-n3-d6", "counter", 3, 6, "rich", o, nil, "", 0),
@@ -181,6 +186,8 @@ func init() {
 				e1run("docarr-cbatch-live-n2-d3", "doc", 2, 3, "arr cbatch", o, nil, "live", 0),
 				e1run("list-tomb-n2-d4", "list", 2, 4, "mid batch", o, nil, "tomb", 0),
 				e1run("docarr-tomb-n2-d3", "doc", 2, 3, "arr", o, nil, "tomb", 0),
+				e1run("list-live-lean-n2-d5", "list", 2, 5, "lean", o, nil, "live", 0),
+				e1run("list-tomb-lean-n3-d4", "list", 3, 4, "lean", o, nil, "tomb", 0),
 			}
 		} else {
 			p.BudgetS = 3300
@@ -188,6 +195,8 @@ func init() {
 				e1run("docarr-cbatch-live-n2-d4", "doc", 2, 4, "arr cbatch", o, nil, "live", 600000),
 				e1run("list-tomb-n3-d4", "list", 3, 4, "mid", o, nil, "tomb", 600000),
 				e1run("docarr-tomb-n2-d4", "doc", 2, 4, "arr", o, nil, "tomb", 600000),
+				e1run("list-live-lean-n2-d8", "list", 2, 8, "lean", o, nil, "live", 600000),
+				e1run("list-tomb-lean-n3-d6", "list", 3, 6, "lean", o, nil, "tomb", 600000),
 				e1run("list-n2-d6", "list", 2, 6, "batch", o, nil, "", 600000),
 				e1run("list-n3-d5", "list", 3, 5, "", o, nil, "", 600000),
 				e1run("list-n4-d4", "list", 4, 4, "", o, nil, "", 600000),
